@@ -277,7 +277,7 @@ def _sibling_inlined(g, p: Production) -> bool:
 def _r3(chk: Check, R3: str, g, lm) -> None:
     producible = set()
     for name, rm in lm.rules.items():
-        if rm.rule.func is None or rm.returns_token != 'never':
+        if rm.returns_token != 'never':
             producible.add(name)
     producible |= set(lm.reserved.values())
     nts = set(g.nonterminals)
@@ -286,14 +286,15 @@ def _r3(chk: Check, R3: str, g, lm) -> None:
         if t == 'error':
             continue
         ok = t in producible
-        silent = t in lm.rules and lm.rules[t].returns_token == 'never'
+        silent = (t in lm.rules and lm.rules[t].returns_token == 'never') or ('ignore_' + t) in lm.rules
         if silent:
             # dead but harmless: no source text maps to this token, so no text is accepted or rejected because of it
             chk.ok(R3, 'terminal %s' % t, where, 'the lexer rule for %s drops its match (returns no token): the productions using it are '
                                                  'dead code, no text is affected' % t)
             continue
         chk.require(ok, R3, 'terminal %s' % t, where,
-                    'produced by the lexer' if ok else 'no lexer rule or keyword produces %s: PLY refuses to build the parser' % t)
+                    'produced by the lexer' if ok else 'no lexer rule or keyword produces %s: the text it stood for is lexed as something else or rejected, '
+                    'and every production that uses it is unreachable' % t)
     for t in g.terminals:
         if t not in g.tokens:
             chk.bad(R3, 'terminal %s declared' % t, where, 'used in a production but missing from `tokens`')
